@@ -79,7 +79,7 @@ def generate(rng, tier, index):
         for _ in range(rng.choice([0, 1, 1, 2, 3]) if rnd == 0 else rng.choice([0, 1])):
             n = rng.choice([1, 1, 2])
             cs = [refsem.gen_constraint(rng, g, rng.randint(1, budget_hi), witness if len(witness) == len(decls) else None) for _ in range(n)]
-            ops.append({"s": 0, "op": "ensure", "cs": cs, "nest": rng.randint(0, 5)})
+            ops.append({"s": 0, "op": "ensure", "cs": cs, "nest": rng.randint(0, 7)})
         if rnd > 0 and rng.random() < 0.3 and refsem.domain_product(decls) * 2 <= 1024:
             ops.append({"s": 0, "op": "bool_var"})
             decls = decls + [{"t": "b"}]
